@@ -12,6 +12,7 @@ import WindVerif.Drv.Pool
 import WindVerif.Drv.FMap
 import WindVerif.Drv.Storage
 import WindVerif.Drv.ForkFile
+import WindVerif.Drv.RecFile
 open WindVerif.Drv
 
 def machines : List (String × Machine) := [
@@ -32,7 +33,8 @@ def machines : List (String × Machine) := [
   ("pool", poolMachine),
   ("fmap", fmapMachine),
   ("storage", storageMachine),
-  ("forkfile", forkfileMachine)
+  ("forkfile", forkfileMachine),
+  ("recfile", recfileMachine)
 ]
 
 def main (args : List String) : IO UInt32 := do
